@@ -563,21 +563,18 @@ func (env *Env) evalField(x EField) Val {
 		if !ok {
 			cerr("field %s of pointer to non-struct", x.Name)
 		}
-		for i := 0; i < st.NumFields(); i++ {
-			if st.Field(i).Name() == x.Name {
-				ft := st.Field(i).Type()
-				if at, isArr := under(ft).(*types.Array); isArr {
-					_, fname := fieldPathType(pt.Elem(), []int{i})
-					ref := e.embRef(pt.Elem(), fname, v.T)
-					return Val{K: KSlice, Typ: types.NewSlice(at.Elem()), Fs: []Val{intv(ref), intv("0"), intv(num(at.Len())), intv(num(at.Len()))}}
-				}
-				f := e.loadHeapFieldQuiet(env.st, pt.Elem(), v.T, []int{i})
-				f.Typ = ft
-				if env.qdepth == 0 && !strings.Contains(v.T, "_q") {
-					e.assumeWF(f, ft, nil) // range facts of the field's type (ground term)
-				}
-				return f
+		if path := promotedPath(st, x.Name); path != nil {
+			ft, fname := fieldPathType(pt.Elem(), path)
+			if at, isArr := under(ft).(*types.Array); isArr {
+				ref := e.embRef(pt.Elem(), fname, v.T)
+				return Val{K: KSlice, Typ: types.NewSlice(at.Elem()), Fs: []Val{intv(ref), intv("0"), intv(num(at.Len())), intv(num(at.Len()))}}
 			}
+			f := e.loadHeapFieldQuiet(env.st, pt.Elem(), v.T, path)
+			f.Typ = ft
+			if env.qdepth == 0 && !strings.Contains(v.T, "_q") {
+				e.assumeWF(f, ft, nil) // range facts of the field's type (ground term)
+			}
+			return f
 		}
 		cerr("no field %s in %s", x.Name, pt.Elem())
 	}
@@ -781,6 +778,22 @@ func (env *Env) evalCall(x ECall) Val {
 			cerr("istype on non-interface")
 		}
 		return boolv(eq(v.Fs[0].T, t.T))
+	case "impl":
+		// impl(x, pkg.Iface): the dynamic type of x implements the interface
+		v := env.eval(x.Args[0])
+		t := env.eval(x.Args[1])
+		if v.K != KIface {
+			cerr("impl on non-interface")
+		}
+		k, ok := litVal(t.T)
+		if !ok {
+			cerr("impl: second argument must be a type name")
+		}
+		ty, found := typeTagTypes[int(k)]
+		if !found {
+			cerr("impl: unknown type")
+		}
+		return boolv(e.implements(v.Fs[0].T, ty))
 	case "as":
 		v := env.eval(x.Args[0])
 		tn, ok := x.Args[1].(EIdent)
@@ -1215,4 +1228,35 @@ func replaceIdent(s, id, by string) string {
 		i++
 	}
 	return b.String()
+}
+
+// promotedPath finds the field path of name in st, looking through embedded
+// (non-pointer) struct fields breadth first, as Go's selector rules do.
+func promotedPath(st *types.Struct, name string) []int {
+	type item struct {
+		st   *types.Struct
+		path []int
+	}
+	queue := []item{{st, nil}}
+	for depth := 0; depth < 4 && len(queue) > 0; depth++ {
+		var next []item
+		for _, it := range queue {
+			for i := 0; i < it.st.NumFields(); i++ {
+				if it.st.Field(i).Name() == name {
+					return append(append([]int{}, it.path...), i)
+				}
+			}
+			for i := 0; i < it.st.NumFields(); i++ {
+				f := it.st.Field(i)
+				if !f.Embedded() {
+					continue
+				}
+				if sub, ok := under(f.Type()).(*types.Struct); ok {
+					next = append(next, item{sub, append(append([]int{}, it.path...), i)})
+				}
+			}
+		}
+		queue = next
+	}
+	return nil
 }
